@@ -153,7 +153,7 @@ class OneCoreDisk(DiskBase):
     see docs/blocking for point numbers and faces/grid indexing."""
 
     chops: ClassVar = [
-        [0],  # axis 0
+        [1],  # axis 0
         [1, 2],  # axis 1
     ]
 
@@ -190,7 +190,7 @@ class QuarterDisk(DiskBase):
     """A quarter of a four-core disk; see docs/blocking for point numbers and faces/grid indexing"""
 
     chops: ClassVar = [
-        [0],  # axis 0
+        [1],  # axis 0
         [1, 2],  # axis 1
     ]
 
@@ -294,8 +294,8 @@ class WrappedDisk(DiskBase):
     making the sketch a square"""
 
     chops: ClassVar = [
-        [6],
-        [1, 2],
+        [1, 6],  # axis 0: the ring around the core and the outer ring
+        [1, 2],  # axis 1
     ]
 
     def __init__(self, center_point: PointType, corner_point: PointType, radius: float, normal: VectorType):
